@@ -59,9 +59,24 @@ func c09Gen(seed uint64, tier string) any {
 		sc.Stmts = append(sc.Stmts, Pick(r, []string{"fc", "lc", "tc", "ec", "ee()", "em()", "tw", "oc + oc", "cc", "fact(3)", "lp(3)", "two(3,2,1)", "outer()"}))
 	}
 	if r.Chance(1, 5) {
-		sc.Stmts = append(sc.Stmts, Pick(r, []string{
-			"nz = -0.0; nzs = [nz, 0.0 * -1, {'z': -0.4 * 0}]; &nzc = this.z; &nzc.z = -0.0; nz", "tiny = 2.0 ^ -1074; big = 2.0 ^ 1023 * 1.9; edge = [2.0 ^ 63, -(2.0 ^ 63), 2.0 ^ 53 + 1, 0.1 + 0.2]; 1", "cyc = [1]; cyc.push(cyc); 1", "cyd = {'k':1}; cyd.me = cyd; 2", "ff2 = 1.0 / 0", "&cc = 1; &cc.me = cc; 3", "nn = 2 ^ 9999.5", "inf2 = 10.0 ^ 400",
-		}))
+		// values no snapshot can hold (the snapshot is refused), sometimes repaired in place afterwards:
+		// the next snapshot must then succeed again
+		type pair struct{ brk, fix string }
+		pr := Pick(r, []pair{
+			{"nz = -0.0; nzs = [nz, 0.0 * -1, {'z': -0.4 * 0}]; &nzc = this.z; &nzc.z = -0.0; nz", ""},
+			{"tiny = 2.0 ^ -1074; big = 2.0 ^ 1023 * 1.9; edge = [2.0 ^ 63, -(2.0 ^ 63), 2.0 ^ 53 + 1, 0.1 + 0.2]; 1", ""},
+			{"cyc = [1]; cyc.push(cyc); 1", "cyc.pop(); cyc"}, {"cyd = {'k':1}; cyd.me = cyd; 2", "cyd.me = 5; cyd"}, {"ff2 = 1.0 / 0", "ff2 = 2.5"},
+			{"&cc = 1; &cc.me = cc; 3", "&cc.me = 4; cc"}, {"nn = 2 ^ 9999.5", "nn = 3"}, {"inf2 = 10.0 ^ 400", "inf2 = [inf2 > 1]"},
+			{"sheet = {'items': [1, 2]}; sheet.items.push(sheet); 1", "sheet.items.pop(); sheet"}, {"bag = {'coins': [1, 10.0 ^ 400, 3]}; 2", "bag.coins[1] = 4; bag"},
+			{"&atk = (this.base ?? 0) + d4; &atk.base = 10.0 ^ 5000; 3", "&atk.base = 3; atk"}, {"deep = [[[[1]]]]; deep[0][0][0].push(deep); 4", "deep[0][0][0].pop(); deep"},
+		})
+		sc.Stmts = append(sc.Stmts, pr.brk)
+		if pr.fix != "" && r.Chance(2, 3) {
+			if r.Bool() {
+				sc.Stmts = append(sc.Stmts, g.followUp(r))
+			}
+			sc.Stmts = append(sc.Stmts, pr.fix)
+		}
 		sc.Stmts = append(sc.Stmts, g.followUp(r))
 	}
 	if r.Chance(1, 6) {
